@@ -144,13 +144,19 @@ def big_case(rng, n, name=b"big", merged_prefixes=1100):
     ops.append({"op": "add_links", "links": [[pages[5], pages[6]]] * 300 + [[hub, hub]] * 3, "as_str": False})
     ops.append({"op": "add_links", "links": [[rng.choice(pages), rng.choice(pages)] for _ in range(1500)], "as_str": False})
     ops.append({"op": "add_page", "lru": hub, "crawled": True, "as_str": False})
+    # one very deep LRU (1200 stems: recursion limits, per-stem work) linked both ways
+    deep = site + b"p:d|" * 1200
+    ops.append({"op": "add_links", "links": [[deep, hub], [fan, deep]], "as_str": False})
+    # a rule installed over all these pages (its installer walks > 2000 pages: the default yield threshold is crossed);
+    # the domain pattern proposes the prefix that already owns them, so no webentity is created
+    ops.append({"op": "rule", "anchor": site, "rule": "domain"})
     # one explicit creation request with more than a thousand prefixes (a merge of many sites), pages below a few of them
     if merged_prefixes:
         merged = [b"s:http|h:net|h:m%04d|" % i for i in range(merged_prefixes)]
         ops.append({"op": "create", "prefixes": merged})
         ops.append({"op": "add_pages", "lrus": [rng.choice(merged) + b"p:%d|" % i for i in range(40)], "crawled": True, "as_str": False})
     return {"engine": "history", "cfg": cfg, "ops": ops, "audit_every": len(ops), "aseed": rng.getrandbits(32), "big": n,
-            "probes": [hub, fan, pages[5], pages[6], nested, site]}
+            "probes": [hub, fan, pages[5], pages[6], nested, site, deep]}
 
 
 def ids_case(rng, n):
